@@ -1,4 +1,99 @@
-(* C05 — theorems in progress; this file is replaced as they are proved *)
-From AB Require Import Check.WorldCheck.
-Theorem c05_placeholder : True. Proof. exact I. Qed.
-Print Assumptions c05_placeholder.
+(* C05 — confirmation and recovery tokens: only the holder of the token that was mailed can
+   confirm / recover, and only that account is affected. *)
+From AB Require Import World.Handlers Proofs.MonadInv Proofs.StoreLogic Proofs.TokenProofs.
+
+(* what is stored for a token: the encoded hashes of its first 32 bytes and of the rest *)
+Theorem c05_token_halves : forall (E : env) raw,
+  selector_of E raw = b64std_enc (sha (e_C E) (firstn 32 raw)) /\
+  verifier_of E raw = b64std_enc (sha (e_C E) (skipn 32 raw)).
+Proof. exact token_halves_lemma. Qed.
+Print Assumptions c05_token_halves.
+
+(* two tokens with the same stored pair are the same token *)
+Theorem c05_token_halves_inj : forall (E : env), crypto_laws (e_C E) -> forall r1 r2,
+  length r1 = 64%nat -> length r2 = 64%nat ->
+  selector_of E r1 = selector_of E r2 -> verifier_of E r1 = verifier_of E r2 -> r1 = r2.
+Proof. exact token_halves_inj_lemma. Qed.
+Print Assumptions c05_token_halves_inj.
+
+(* any change a confirm request makes to storage is exactly the confirmation of the account
+   whose stored selector / verifier are the hashes of the two halves of the submitted token *)
+Theorem c05_confirm_accept : forall (E : env) h r h',
+  confirm_get E h = (r, h') -> h_st h' <> h_st h ->
+  exists raw u,
+    b64url_dec (aget f_cnf (values E)) = Some raw /\ length raw = 64%nat /\
+    ufind (fun u => beqb (u_csel u) (selector_of E raw)) (s_users (h_st h)) = Some u /\
+    b64std_dec (u_cver u) = Some (sha (e_C E) (half2 raw)) /\
+    s_users (h_st h') = uput (u_pid u) (u <| u_csel := [] |> <| u_cver := [] |> <| u_confirmed := true |>) (s_users (h_st h)) /\
+    s_rm (h_st h') = s_rm (h_st h).
+Proof. exact confirm_accept_lemma. Qed.
+Print Assumptions c05_confirm_accept.
+
+(* if no decoding / length / selector / verifier combination fits, storage is untouched *)
+Theorem c05_confirm_reject_unchanged : forall (E : env) h r h',
+  confirm_get E h = (r, h') ->
+  (forall raw u,
+     b64url_dec (aget f_cnf (values E)) = Some raw -> length raw = 64%nat ->
+     ufind (fun u => beqb (u_csel u) (selector_of E raw)) (s_users (h_st h)) = Some u ->
+     b64std_dec (u_cver u) <> Some (sha (e_C E) (half2 raw))) ->
+  h_st h' = h_st h.
+Proof. exact confirm_reject_unchanged_lemma. Qed.
+Print Assumptions c05_confirm_reject_unchanged.
+
+(* the same, case by case: undecodable, wrong length, unknown selector, wrong verifier *)
+Theorem c05_confirm_reject_cases : forall (E : env) h r h',
+  confirm_get E h = (r, h') ->
+  (b64url_dec (aget f_cnf (values E)) = None \/
+   (exists raw, b64url_dec (aget f_cnf (values E)) = Some raw /\
+      (length raw <> 64%nat \/
+       ufind (fun u => beqb (u_csel u) (selector_of E raw)) (s_users (h_st h)) = None \/
+       exists u, ufind (fun u => beqb (u_csel u) (selector_of E raw)) (s_users (h_st h)) = Some u /\
+                 b64std_dec (u_cver u) <> Some (sha (e_C E) (half2 raw))))) ->
+  h_st h' = h_st h.
+Proof. exact confirm_reject_cases_lemma. Qed.
+Print Assumptions c05_confirm_reject_cases.
+
+(* recover end, FINAL state of the request in every configuration (all event hooks included):
+   storage is untouched, or the token fits an unexpired account, whose record ends up as the
+   recovered one up to the lock counters, and nobody else's record changed *)
+Theorem c05_recover_end_cases : forall (E : env) h r h',
+  recover_end_post E h = (r, h') ->
+  h_st h' = h_st h \/
+  exists raw u,
+    b64url_dec (aget f_token (values E)) = Some raw /\ length raw = 64%nat /\
+    ufind (fun u => beqb (u_rsel u) (selector_of E raw)) (s_users (h_st h)) = Some u /\
+    ~ (u_rexp u < o_now (e_O E))%Z /\
+    b64std_dec (u_rver u) = Some (sha (e_C E) (half2 raw)) /\
+    valid [password_rule] pw_pairs (values E) = true /\ pw_dom (aget f_password (values E)) /\
+    (exists su, ulookup (u_pid u) (s_users (h_st h')) = Some su /\
+                upto_lock (recovered E u (aget f_password (values E))) su) /\
+    (forall p, p <> u_pid u -> ulookup p (s_users (h_st h')) = ulookup p (s_users (h_st h))).
+Proof. exact recover_end_cases. Qed.
+Print Assumptions c05_recover_end_cases.
+
+(* any change a recover-end request makes to the user table: the token fits, is not expired,
+   the stored password is the hash of the submitted one and the token is cleared *)
+Theorem c05_recover_accept : forall (E : env) h r h',
+  recover_end_post E h = (r, h') -> s_users (h_st h') <> s_users (h_st h) ->
+  exists raw u su,
+    b64url_dec (aget f_token (values E)) = Some raw /\ length raw = 64%nat /\
+    ufind (fun u => beqb (u_rsel u) (selector_of E raw)) (s_users (h_st h)) = Some u /\
+    ~ (u_rexp u < o_now (e_O E))%Z /\
+    b64std_dec (u_rver u) = Some (sha (e_C E) (half2 raw)) /\
+    ulookup (u_pid u) (s_users (h_st h')) = Some su /\
+    u_password su = pwhash (e_C E) (aget f_password (values E)) /\ u_rsel su = [] /\ u_rver su = [] /\
+    (forall p, p <> u_pid u -> ulookup p (s_users (h_st h')) = ulookup p (s_users (h_st h))).
+Proof. exact recover_accept_lemma. Qed.
+Print Assumptions c05_recover_accept.
+
+(* no fitting, unexpired token: storage (users and remember tokens) is untouched *)
+Theorem c05_recover_reject_unchanged : forall (E : env) h r h',
+  recover_end_post E h = (r, h') ->
+  (forall raw u,
+     b64url_dec (aget f_token (values E)) = Some raw -> length raw = 64%nat ->
+     ufind (fun u => beqb (u_rsel u) (selector_of E raw)) (s_users (h_st h)) = Some u ->
+     ~ (u_rexp u < o_now (e_O E))%Z ->
+     b64std_dec (u_rver u) <> Some (sha (e_C E) (half2 raw))) ->
+  h_st h' = h_st h.
+Proof. exact recover_reject_unchanged_lemma. Qed.
+Print Assumptions c05_recover_reject_unchanged.
